@@ -31,7 +31,8 @@ RULE = ("all sequences of length d over 59 operations {sized_iter_to_heap_list o
         "one-cell growth and exact reservations: every Heap::reserve gives back the free cells beyond the reservation): "
         "12 string operations x strings of 0..25 bytes x 3 kinds x 8 heap paddings, and 22 general workloads (lists, copying, "
         "findall/bagof/setof, assert, text conversion, bignums, the reader and writer, sorting, attributed variables, univ, "
-        "format_//2, assoc, error terms, blackboard, partial strings, DCGs), each compared with its run under ordinary growth.")
+        "format_//2, assoc, error terms, blackboard, partial strings, DCGs), each compared with its run under ordinary growth; "
+        "thorough: the complete quick spaces of the modules C20, C14, C13, C22, C23 re-run in such a worker (memory safety only).")
 LEVEL_TEXT = ("every operation sequence up to the depth bound is executed on the real heap code at every free-space "
               "level; an out-of-bounds write of up to 256 bytes past either end of any allocation is caught by canaries")
 ASSUMPTIONS = ["writes that land more than 256 bytes outside a block are not caught by the canaries (they would usually crash the explorer, which is reported as a machinery failure, not as a pass)",
@@ -57,7 +58,47 @@ def shards(tier):
     for pad in range(8):
         sh.append(["machine", pad])
     sh.append(["machine", "wl"])
+    if tier == "thorough":
+        # corpus family: the complete quick spaces of other properties' modules (strings against lists,
+        # atom/char builtins, term ordering, sorting, term inspection) re-run in a worker with the canary
+        # allocator, one-cell growth and exact reservations; only memory safety is judged here
+        import importlib
+        for mn in CORPUS:
+            n = len(list(importlib.import_module("vx.props." + mn).shards("quick")))
+            for i in range(n):
+                sh.append(["corpus", mn, i])
     return sh
+
+
+CORPUS = ["C20", "C14", "C13", "C22", "C23"]
+
+
+def run_corpus(shard):
+    import importlib
+    _, mn, i = shard
+    M = importlib.import_module("vx.props." + mn)
+    msh = list(M.shards("quick"))[i]
+    acc = px.ShardAcc()
+    w = pool.Worker(extra_env={"PW_REDZONE": "1", "PW_EXACT": "1"}, **getattr(M, "WORKER_KWARGS", {}))
+    try:
+        if not w.rpc({"op": "rz"}).get("enabled"):
+            raise pool.MachineryError("pworker red zone not enabled")
+        if hasattr(M, "setup"):
+            M.setup(w, "quick")
+        r = M.run_shard(w, msh, "quick")
+        px.run_goals(w, ["length(L, 5000)"])     # growth verifies the canaries of the old block
+        smashed = w.rpc({"op": "rz"}).get("smashed", 0)
+        acc.evals = r.get("evals", 0)
+        acc.nontrivial = r.get("evals", 0)
+        acc.outcomes["corpus_%s_clean" % mn] = r.get("evals", 0)
+        if w.restarts:
+            acc.outcomes["corpus_worker_restarts"] = w.restarts
+        if smashed:
+            acc.violation("corpus: write outside an allocated block (canary overwritten) while running the quick space of %s" % mn,
+                          {"kind2": "corpus", "mod": mn, "i": i}, observed="smashed=%d shard=%r" % (smashed, msh))
+        return acc.result()
+    finally:
+        w.close()
 
 
 # --- full machine under one-cell growth and the canary allocator ---------------
@@ -253,6 +294,8 @@ def recheck_machine(c):
 def run_shard(w, shard, tier):
     if shard[0] == "machine":
         return run_machine(shard)
+    if shard[0] == "corpus":
+        return run_corpus(shard)
     d, i, n, mode = shard
     args = [MC, "explore", str(d), str(i), str(n)] + ([mode] if mode else [])
     p = subprocess.run(args, capture_output=True, timeout=3000)
@@ -278,6 +321,9 @@ def run_shard(w, shard, tier):
 def recheck(w, case, tier):
     if case.get("kind2") == "machine":
         return recheck_machine(case)
+    if case.get("kind2") == "corpus":
+        r = run_corpus(["corpus", case["mod"], case["i"]])
+        return dict(r["violations"][0]) if r["violations"] else None
     p = subprocess.run([MC, "replay", case["levels"], "1" if case["tight"] else "0", case["ops"]],
                        capture_output=True, timeout=60)
     if p.returncode != 0:
